@@ -27,11 +27,12 @@ DOLLAR == 36
 NL == 10
 COLON == 58
 LETTER_A == 97
-Alphabet == <<LETTER_A, COLON, SQ, DQ, BS, DASH, 59, 63, STAR, SLASH, DOLLAR, 32, 233>>   \* a : ' " \ - ; ? * / $ space é
+Alphabet == <<LETTER_A, COLON, SQ, DQ, BS, DASH, 59, 63, STAR, SLASH, DOLLAR, 32, 233, 48, 40, 41>>   \* a : ' " \ - ; ? * / $ space é 0 ( )
 
 RECURSIVE Strings(_)
 Strings(n) == IF n = 0 THEN {<<>>} ELSE LET s == Strings(n - 1) IN s \cup {Append(x, Alphabet[i]) : x \in {y \in s : Len(y) = n - 1}, i \in 1..Len(Alphabet)}
-Harmless(v) == [i \in 1..Len(v) |-> IF v[i] = COLON THEN COLON ELSE LETTER_A]
+\* digits stay digits (a number is as harmless as a letter, and numeric slots only take numbers)
+Harmless(v) == [i \in 1..Len(v) |-> IF v[i] = COLON \/ v[i] \in 48..57 THEN v[i] ELSE LETTER_A]
 
 IsTagChar(ch) == (ch >= 97 /\ ch <= 122) \/ (ch >= 65 /\ ch <= 90) \/ ch = 95 \/ (ch >= 48 /\ ch <= 57)
 
